@@ -23,15 +23,15 @@ func checkC08(w *World, r *Report) {
 		ob.Undecided("anchors", strings.Join(a.Problems, "; "))
 		return
 	}
-	c08Dispatch(w, r, a)
+	c08Dispatch(w, r, a, "C08.a", "a-format-dispatch-bijection")
 	c03Snapshots(w, r, a, "C08.b", "b-save-reads-prepared-view")
 	c04InstallOrder(w, r, a, "C08.c", "c-install-order")
 	c04Publish(w, r, "C08.c2", "c2-publish-protocol")
 	c08Escape(w, r, a)
 }
 
-func c08Dispatch(w *World, r *Report, a *FsmA) {
-	ob := r.Ob("C08.a", "a-format-dispatch-bijection", "for each recoverer type T: T.getHeader sets the snapshot type to a constant k_T and the recoverer selector returns T for k_T; setSnapshotType and snapshotType use the same constant byte index; SaveSnapshot writes getHeader() of the same recoverer value whose save it calls; RecoverFromSnapshot reads the header with the byte order SaveSnapshot wrote it with and passes header.snapshotType() to the selector", "a header that selects the other format makes every transfer between replicas (and every restart from a snapshot) fail or, worse, be parsed as the wrong format")
+func c08Dispatch(w *World, r *Report, a *FsmA, id, slug string) {
+	ob := r.Ob(id, slug, "for each recoverer type T: T.getHeader sets the snapshot type to a constant k_T and the recoverer selector returns T for k_T; setSnapshotType and snapshotType use the same constant byte index; SaveSnapshot writes getHeader() of the same recoverer value whose save it calls; RecoverFromSnapshot reads the header with the byte order SaveSnapshot wrote it with and passes header.snapshotType() to the selector", "a header that selects the other format makes every transfer between replicas (and every restart from a snapshot) fail or, worse, be parsed as the wrong format")
 	sp := w.SSAPkg(fsmRel)
 	it, ok := sp.Pkg.Scope().Lookup("snapshotRecoverer").Type().Underlying().(*types.Interface)
 	if !ok {
